@@ -380,14 +380,30 @@ def call_permute(call):
     from tensorly.cp_tensor import CPTensor, cp_permute_factors
     ref = CPTensor((tl.tensor(call["wref"].copy()), [tl.tensor(a.copy()) for a in call["As"]]))
     ts = [CPTensor((tl.tensor(w.copy()), [tl.tensor(b.copy()) for b in Bs])) for (w, Bs, _) in permute_entries(call)]
+    def touched(v):
+        """cp_copy: the permuted tensors are COPIES; the arguments (reference, tensors, the caller's list) keep their values"""
+        ents = permute_entries(call)
+        bad = []
+        if not (np.array_equal(np.asarray(ref.weights), call["wref"]) and all(np.array_equal(np.asarray(f), a) for f, a in zip(ref.factors, call["As"]))):
+            bad.append("the reference was modified")
+        for j, (t, (w, Bs, _)) in enumerate(zip(ts, ents)):
+            if not (np.array_equal(np.asarray(t.weights), w) and all(np.array_equal(np.asarray(f), b) for f, b in zip(t.factors, Bs))):
+                bad.append(f"argument tensor {j} was modified")
+            if v is not None and any(o is t for o in v):
+                bad.append(f"argument tensor {j} itself was returned (no copy)")
+        return bad
     if call.get("as_list"):
-        st, v = C.call_impl(cp_permute_factors, ref, ts)     # a list of two DIFFERENT tensors
+        arg = list(ts)
+        st, v = C.call_impl(cp_permute_factors, ref, arg)     # a list of two DIFFERENT tensors
         if st == "ok" and not (isinstance(v[0], list) and len(v[0]) == len(ts) and len(v[1]) == len(ts)):
             return "ok", (None, None)
+        if st == "ok":
+            call["_touched"] = touched(v[0]) + (["the caller's list was modified"] if not (len(arg) == len(ts) and all(x is y for x, y in zip(arg, ts))) else [])
         return st, v
     st, v = C.call_impl(cp_permute_factors, ref, ts[0])
     if st == "ok":
         v = ([v[0]], v[1])
+        call["_touched"] = touched(v[0])
     return st, v
 
 
@@ -429,7 +445,7 @@ def pred_permute(call, out):
     pts, perms = v
     if pts is None:
         return [("C20_permute_aligned", "a list of two CP tensors did not yield two permuted tensors and two permutations")]
-    fails = []
+    fails = [("C20_permute_inputs_untouched", m) for m in call.get("_touched", [])]
     ents = permute_entries(call)
     for j, ((w, Bs, sigma), pt, pm) in enumerate(zip(ents, pts, perms)):
         perm = [int(x) for x in np.asarray(pm).ravel()]
@@ -1051,6 +1067,7 @@ def gen_reg(tier, rng):
 # reported in the evidence and never a verdict.
 import ast as _ast_mod
 ast = _ast_mod
+import copy
 import os
 
 
@@ -1304,6 +1321,18 @@ def pmatch(node, pat, env):
         return isinstance(node, ast.Name) and node.id in ("T", "tl")
     if type(node) is not type(pat):
         return False
+    # operand order that cannot matter: `a or b`, `a == b`, `a != b`, and + / * (numbers; the one list concatenation in the
+    # patterns feeds np.unique, which ignores order)
+    if isinstance(pat, ast.BoolOp) and type(node.op) is type(pat.op) and len(node.values) == len(pat.values) == 2:
+        return _either(env, lambda e: pmatch(node.values[0], pat.values[0], e) and pmatch(node.values[1], pat.values[1], e),
+                       lambda e: pmatch(node.values[1], pat.values[0], e) and pmatch(node.values[0], pat.values[1], e))
+    if (isinstance(pat, ast.Compare) and len(pat.ops) == 1 and len(node.ops) == 1 and type(node.ops[0]) is type(pat.ops[0])
+            and isinstance(pat.ops[0], (ast.Eq, ast.NotEq))):
+        return _either(env, lambda e: pmatch(node.left, pat.left, e) and pmatch(node.comparators[0], pat.comparators[0], e),
+                       lambda e: pmatch(node.comparators[0], pat.left, e) and pmatch(node.left, pat.comparators[0], e))
+    if isinstance(pat, ast.BinOp) and type(node.op) is type(pat.op) and isinstance(pat.op, (ast.Add, ast.Mult)):
+        return _either(env, lambda e: pmatch(node.left, pat.left, e) and pmatch(node.right, pat.right, e),
+                       lambda e: pmatch(node.right, pat.left, e) and pmatch(node.left, pat.right, e))
     for f in pat._fields:
         if f in ("ctx", "type_comment", "kind"):
             continue
@@ -1317,6 +1346,119 @@ def pmatch(node, pat, env):
         elif a != b:
             return False
     return True
+
+
+def _either(env, first, second):
+    """try two ways of matching; the bindings of a failed attempt are discarded"""
+    for alt in (first, second):
+        e = dict(env)
+        if alt(e):
+            env.clear(); env.update(e)
+            return True
+    return False
+
+
+# ---- harmless rewrites the executors follow instead of rejecting: (a) a temporary that names a pure expression
+# (`n1 = T.norm(mat1, axis=0)`), (b) a module-level helper whose body is a single `return <expression>` -- both are inlined
+# into the statements that use them BEFORE the patterns are tried, only when a statement did not match as written, and only
+# while no variable the expression reads has been assigned since (otherwise: Untranslatable, fail closed).
+_PURE_CALLS = {"len", "abs", "zip", "dict", "range", "list", "tuple", "min", "max", "sum"}
+
+
+def _pure(n, helpers):
+    if isinstance(n, (ast.Name, ast.Constant)):
+        return True
+    if isinstance(n, ast.Attribute):
+        return _pure(n.value, helpers)
+    if isinstance(n, ast.Call):
+        f = n.func
+        ok = ((isinstance(f, ast.Attribute) and isinstance(f.value, ast.Name) and f.value.id in ("T", "tl", "np")) or
+              (isinstance(f, ast.Name) and (f.id in _PURE_CALLS or f.id in helpers)))
+        return ok and all(_pure(a, helpers) for a in n.args) and all(_pure(k.value, helpers) for k in n.keywords)
+    if isinstance(n, (ast.BinOp,)):
+        return _pure(n.left, helpers) and _pure(n.right, helpers)
+    if isinstance(n, ast.UnaryOp):
+        return _pure(n.operand, helpers)
+    if isinstance(n, ast.Compare):
+        return _pure(n.left, helpers) and all(_pure(c, helpers) for c in n.comparators)
+    if isinstance(n, ast.Subscript):
+        return _pure(n.value, helpers) and _pure(n.slice, helpers)
+    if isinstance(n, ast.Tuple):
+        return all(_pure(e, helpers) for e in n.elts)
+    return False
+
+
+class _Subst(ast.NodeTransformer):
+    def __init__(self, mapping, helpers, owner):
+        self.m, self.h, self.o = mapping, helpers, owner
+
+    def visit_Name(self, n):
+        if isinstance(n.ctx, ast.Load) and n.id in self.m:
+            v = self.m[n.id]
+            if v is None:
+                raise Untranslatable(f"temporary {n.id} used after a variable it reads was assigned")
+            if self.o is not None:
+                self.o.used = True
+            return copy.deepcopy(v)
+        return n
+
+    def visit_Call(self, n):
+        n = self.generic_visit(n)
+        if isinstance(n.func, ast.Name) and n.func.id in self.h and not n.keywords:
+            params, body = self.h[n.func.id]
+            if len(params) == len(n.args):
+                if self.o is not None:
+                    self.o.used = True
+                return _Subst(dict(zip(params, n.args)), {}, None).visit(copy.deepcopy(body))
+        return n
+
+
+def _helpers(funcs, exclude):
+    """module-level functions `def f(a, b): return <pure expression>`"""
+    out = {}
+    for name, fn in funcs.items():
+        b = _body(fn)
+        if name in exclude or len(b) != 1 or not isinstance(b[0], ast.Return) or b[0].value is None:
+            continue
+        if fn.args.vararg or fn.args.kwarg or fn.args.kwonlyargs or fn.args.defaults:
+            continue
+        out[name] = ([a.arg for a in fn.args.args], b[0].value)
+    return {k: v for k, v in out.items() if _pure(v[1], out)}
+
+
+class Temps:
+    """walk(stmts) yields every statement with the known temporaries / helpers inlined; a statement no pattern matched goes to
+    unmatched(): a temporary definition is remembered, anything else is Untranslatable"""
+    def __init__(self, helpers=None, protected=()):
+        self.t, self.reads, self.h, self.protected, self.used, self.seen = {}, {}, dict(helpers or {}), set(protected), False, set()
+
+    def _sub(self, s):
+        if not self.t and not self.h:
+            return s
+        return ast.fix_missing_locations(_Subst(self.t, self.h, self).visit(copy.deepcopy(s)))
+
+    def walk(self, stmts):
+        for s in stmts:
+            s2 = self._sub(s)
+            yield s2
+            assigned = {n.id for n in ast.walk(s2) if isinstance(n, ast.Name) and isinstance(n.ctx, (ast.Store, ast.Del))}
+            for v in list(self.t):
+                if self.t[v] is not None and (self.reads[v] & assigned or (v in assigned and self._def.get(v) is not s2)):
+                    self.t[v] = None
+            self.seen |= assigned
+
+    _def = {}
+
+    def unmatched(self, s, what):
+        if (isinstance(s, ast.Assign) and len(s.targets) == 1 and isinstance(s.targets[0], ast.Name)
+                and s.targets[0].id not in self.protected and s.targets[0].id not in self.t and s.targets[0].id not in self.seen
+                and isinstance(s.value, (ast.Call, ast.BinOp, ast.Subscript, ast.Attribute)) and _pure(s.value, self.h)):
+            v = s.targets[0].id
+            self.t[v] = s.value
+            self.reads[v] = {n.id for n in ast.walk(s.value) if isinstance(n, ast.Name)}
+            self._def = dict(self._def); self._def[v] = s
+            return
+        raise Untranslatable(what + ast.unparse(s).split("\n")[0][:70])
 
 
 def m_stmt(node, src):
@@ -1353,7 +1495,8 @@ def _funcs(path):
 
 
 def src_factors(repo):
-    fn = _funcs(os.path.join(repo, "tensorly", "metrics", "factors.py")).get("congruence_coefficient")
+    funcs = _funcs(os.path.join(repo, "tensorly", "metrics", "factors.py"))
+    fn = funcs.get("congruence_coefficient")
     if fn is None:
         raise Untranslatable("congruence_coefficient not found")
     ps = [a.arg for a in fn.args.args]
@@ -1362,8 +1505,9 @@ def src_factors(repo):
     p1, p2, pabs = ps
     side = {p1: 1, p2: 2}
     sw = dict(len=False, cols=False, rows=False, z1=False, z2=False, L=None, R=None, abs="AbsNever")
-    st = dict(list=None, cols=None, loop=False, acc=None, prod=False, row=None, col=None, perm=None, idx=None, ret=False)
-    for s in _body(fn):
+    st = dict(list=None, cols=None, loop=False, acc=None, prod=False, row=None, col=None, perm=None, idx=None, ret=False, late_abs=False)
+    tm = Temps(_helpers(funcs, {"congruence_coefficient"}), protected=ps)
+    for s in tm.walk(_body(fn)):
         e = m_stmt(s, "if T.is_tensor(_X):\n    _X = [_X]")
         if e and _name(e["_X"]) in side and not st["loop"]:
             continue
@@ -1407,7 +1551,13 @@ def src_factors(repo):
         if (e and st["perm"] and _name(e["_p"]) == st["perm"] and _name(e["_acc"]) == st["acc"]
                 and (_name(e["_r"]), _name(e["_c"])) == (st["row"], st["col"])):
             st["ret"] = True; continue
-        raise Untranslatable("statement: " + ast.unparse(s).split("\n")[0][:70])
+        # |prod_m c_m| = prod_m |c_m| (Proofs/MetricsProofs19.v: abs_after_product): ONE absolute value of the product matrix under
+        # the same flag, with no absolute value inside the loop, is the canonical decision
+        e = (m_stmt(s, "if _f:\n    _acc = T.abs(_acc)") or m_stmt(s, "if _f:\n    _acc = abs(_acc)") or m_stmt(s, "if _f:\n    _acc = np.abs(_acc)"))
+        if (e and st["prod"] and st["row"] is None and not s.orelse and _name(e["_f"]) == pabs and _name(e["_acc"]) == st["acc"]
+                and sw["abs"] == "AbsNever" and not st["late_abs"]):
+            st["late_abs"] = True; sw["abs"] = "AbsIf"; continue
+        tm.unmatched(s, "statement: ")
     if not (st["loop"] and st["prod"] and st["ret"] and sw["L"] and sw["R"]):
         raise Untranslatable("incomplete: loop / product / assignment / return not all found")
     bl = lambda b: "true" if b else "false"
@@ -1420,7 +1570,9 @@ def _factors_loop(body, a, b, lst, pabs, sw):
 
     def pm(v):
         return f"(PRaw W{v[1]})" if v[0] == "raw" else f"(PNormed W{v[1]} W{v[2]})"
-    for s in body:
+    tm = Temps({}, protected={a, b, lst, pabs})
+    cur = None          # a temporary holding the congruence matrix of this pair before it is appended
+    for s in tm.walk(body):
         e = m_stmt(s, "if T.shape(_x)[0] != T.shape(_y)[0]:\n    raise ValueError()")
         if e and {env.get(_name(e["_x"]), (0, 0))[1], env.get(_name(e["_y"]), (0, 0))[1]} == {1, 2}:
             sw["rows"] = True; continue
@@ -1454,7 +1606,26 @@ def _factors_loop(body, a, b, lst, pabs, sw):
         e = m_stmt(s, "_L[-1] = T.to_numpy(_L[-1])")
         if e and appended and _name(e["_L"]) == lst:
             continue
-        raise Untranslatable("loop statement: " + ast.unparse(s).split("\n")[0][:70])
+        # the same through a named temporary:  c = T.dot(T.transpose(x), y); [if f: c = T.abs(c)]; [c = T.to_numpy(c)]; L.append(c)
+        e = m_stmt(s, "_c = T.dot(T.transpose(_x), _y)")
+        if e and appended == 0 and cur is None and isinstance(e["_c"], ast.Name) and _name(e["_c"]) not in env:
+            vx, vy = env.get(_name(e["_x"])), env.get(_name(e["_y"]))
+            if vx is None or vy is None:
+                raise Untranslatable("dot of unknown operands")
+            sw["L"], sw["R"] = pm(vx), pm(vy); cur = _name(e["_c"]); continue
+        e = m_stmt(s, "if _f:\n    _c = T.abs(_c)")
+        if e and cur and appended == 0 and not s.orelse and _name(e["_c"]) == cur and _name(e["_f"]) == pabs:
+            sw["abs"] = "AbsIf"; continue
+        e = m_stmt(s, "_c = T.abs(_c)")
+        if e and cur and appended == 0 and _name(e["_c"]) == cur:
+            sw["abs"] = "AbsAlways"; continue
+        e = m_stmt(s, "_c = T.to_numpy(_c)")
+        if e and cur and appended == 0 and _name(e["_c"]) == cur:
+            continue
+        e = m_stmt(s, "_L.append(T.to_numpy(_c))") or m_stmt(s, "_L.append(_c)")
+        if e and cur and appended == 0 and _name(e["_L"]) == lst and isinstance(e["_c"], ast.Name) and _name(e["_c"]) == cur:
+            appended = 1; continue
+        tm.unmatched(s, "loop statement: ")
     if not appended:
         raise Untranslatable("no congruence matrix appended in the loop")
 
@@ -1914,7 +2085,7 @@ def load_corpus():
 
 
 def encode_call(call):
-    return C.jsonable(call)
+    return C.jsonable({k: v for k, v in call.items() if not k.startswith("_")})
 
 
 def decode_call(d):
